@@ -145,7 +145,8 @@ def arrays_of(res):
     return [np.asarray(res)]
 
 
-def compare_variants(run, entry, variants, post=None, cls=()):
+def compare_variants(run, entry, variants, post=None, cls=(), expected=None,
+                     integer_ok=False):
     """variants: label -> thunk.  All must succeed, give non-object inexact
     arrays, agree numerically, and survive `post` (follow-up library calls)."""
     mon = run.monitor("packaging")
@@ -172,6 +173,24 @@ def compare_variants(run, entry, variants, post=None, cls=()):
                      "%s with %s packaging returned generic-object data" % (entry, label),
                      case)
             continue
+        notfloat = [str(a.dtype) for a in arrs if a.dtype.kind not in "fc"]
+        if notfloat and not integer_ok:
+            mon.fail("packaging/non-float-dtype/%s/%s" % (entry, label),
+                     "%s with %s packaging returned %s data for real input (floating point expected)"
+                     % (entry, label, notfloat[0]), case)
+            continue
+        if expected is not None:
+            exp = np.asarray(expected, dtype=complex)
+            got = arrs[0].astype(complex)
+            if got.shape != exp.shape:
+                mon.fail("packaging/absolute-shape/%s/%s" % (entry, label),
+                         "%s: shape %r, expected %r" % (entry, got.shape, exp.shape), case)
+                continue
+            if not mon.judge(float(np.max(np.abs(got - exp))) if exp.size else 0.0, TOL,
+                             "packaging/absolute-value/%s/%s" % (entry, label),
+                             "%s with %s packaging is not the documented value" % (entry, label),
+                             case):
+                continue
         run.note_class(entry, label, *cls)
         if ref is None:
             ref, ref_label = arrs, label
@@ -194,6 +213,17 @@ def compare_variants(run, entry, variants, post=None, cls=()):
                   case)
 
 
+def std_rotation_ref(a, d):
+    """rotation by a in the (x1, x2) plane of R^(d,1), as a map of Klein
+    coordinates; compared on the matrix up to transpose convention by checking
+    the action: returned here as the (d+1)x(d+1) matrix stored by an Isometry
+    built with column_vectors=True (proj_data = transpose of the column-vector
+    matrix)."""
+    M = np.eye(d + 1)
+    M[1:3, 1:3] = [[math.cos(a), -math.sin(a)], [math.sin(a), math.cos(a)]]
+    return M.T
+
+
 def wl_packaging_scalar(run, rng, idx):
     from geometry_tools import utils, hyperbolic
     from geometry_tools.hyperbolic import Isometry, IdealPoint, Polygon, TangentVector, Point
@@ -201,15 +231,20 @@ def wl_packaging_scalar(run, rng, idx):
     d = int(rng.integers(2, 5))
     n = int(rng.integers(3, 9))
     pk = scalar_packagings(a)
+    ca, sa = math.cos(a), math.sin(a)
     compare_variants(run, "utils.rotation_matrix",
                      {k: (lambda v=v: utils.rotation_matrix(v)) for k, v in pk.items()},
-                     post=lambda R: np.linalg.inv(R))
+                     post=lambda R: np.linalg.inv(R), expected=[[ca, -sa], [sa, ca]])
     compare_variants(run, "Isometry.standard_rotation",
                      {k: (lambda v=v: Isometry.standard_rotation(v, dimension=d))
                       for k, v in pk.items()},
                      post=lambda T: (T.inv(), T @ Point(np.full(d, 0.1), model="klein"),
-                                     np.linalg.eig(T.proj_data)[0]), cls=(d,))
+                                     np.linalg.eig(T.proj_data)[0]), cls=(d,),
+                     expected=std_rotation_ref(a, d))
     compare_variants(run, "IdealPoint.from_angle",
+                     {k: (lambda v=v: IdealPoint.from_angle(v).coords("klein")) for k, v in pk.items()},
+                     expected=[ca, sa])
+    compare_variants(run, "IdealPoint.from_angle->poincare",
                      {k: (lambda v=v: IdealPoint.from_angle(v)) for k, v in pk.items()},
                      post=lambda p: p.coords("poincare"))
     ang = float(rng.uniform(0.05, 0.95)) * (n - 2) * math.pi / n
